@@ -16,6 +16,18 @@ OUT = os.path.join(HERE, "mutants")
 N = "src/node.rs"
 # (name, property, expected rule, file, old, new)
 MUTANTS = [
+    ("c01-is-stale-var-ge", "C01", "C01.DTAB-staleness", N,
+     "                set_at > recomputed_at\n",
+     "                set_at >= recomputed_at\n"),
+    ("c06-is-stale-expert-no-force", "C06", "C06.DTAB-staleness", N,
+     "                e.force_stale.get()\n                    || self.recomputed_at.get().is_never()",
+     "                self.recomputed_at.get().is_never()"),
+    ("c05-is-necessary-no-force", "C05", "C05.DTAB-necessity", N,
+     "            // || kind is freeze\n            || self.force_necessary.get()\n",
+     "            // || kind is freeze\n"),
+    ("c11-skip-first-parent", "C11", "C11.WMC-truncating", N,
+     "            for (parent_index, parent) in parents_iter {\n",
+     "            for (parent_index, parent) in parents_iter.skip(0) {\n"),
     # ---- C01
     ("c01-drop-map4-four", "C01", "C01.SIB-children", N,
      "                ret = f(ret, 3, four.clone().packed())?;\n            }\n            Kind::Map5",
